@@ -234,7 +234,8 @@ func (r *SenderReport) MarshalSize() int {
 	for _, rep := range r.Reports {
 		repsLength += rep.len()
 	}
-	return headerLength + srHeaderLength + repsLength + len(r.ProfileExtensions)
+	extLength := len(r.ProfileExtensions) + getPadding(len(r.ProfileExtensions))
+	return headerLength + srHeaderLength + repsLength + extLength
 }
 
 // Header returns the Header associated with this packet.
